@@ -460,7 +460,7 @@ func distributeExtraSpace(context *layoutContext, affectedSizes, affectedTracksT
 // direction : 'x' or 'y'
 func resolveTracksSizes(context *layoutContext, sizingFunctions [][2]pr.DimOrS, boxSize pr.MaybeFloat, childrenPositions map[Box]rect,
 	implicitStart int, direction byte, gap pr.Float,
-	containingBlock bo.Box, orthogonalSizes [][2]pr.Float,
+	containingBlock bo.Box, orthogonalSizes [][2]pr.Float, orthogonalImplicitStart int,
 ) [][2]pr.Float {
 	// TODO: Check that auto box size is 0 for percentages.
 	percentBoxSize := pr.Float(0)
@@ -524,6 +524,7 @@ func resolveTracksSizes(context *layoutContext, sizingFunctions [][2]pr.DimOrS, 
 			for _, child := range children {
 				pos := childrenPositions[child]
 				x, _, width, _ := pos.unpack()
+				x -= orthogonalImplicitStart // index of the first track
 				widthF := sum0(orthogonalSizes[x : x+width])
 				child = bo.Deepcopy(child)
 				child.Box().PositionX = 0
@@ -1322,11 +1323,11 @@ func gridLayout(context *layoutContext, box_ Box, bottomSpace pr.Float, skipStac
 
 	// 3.1 Resolve the sizes of the grid columns.
 	columnsSizes := resolveTracksSizes(context, columnSizingFunctions, box.Width, childrenPositions, implicitX1,
-		'x', columnGap, box_, nil)
+		'x', columnGap, box_, nil, 0)
 
 	// 3.2 Resolve the sizes of the grid rows.
 	rowsSizes := resolveTracksSizes(context, rowSizingFunctions, box.Height, childrenPositions, implicitY1,
-		'y', rowGap, box_, columnsSizes)
+		'y', rowGap, box_, columnsSizes, implicitX1)
 
 	// 3.3 Re-resolve the sizes of the grid columns with min-/max-content.
 	// TODO: Re-resolve.
